@@ -326,7 +326,7 @@ pub fn jobs(prop: &str, tier: &str) -> Vec<Job> {
                 for k in [6, 10, 12] {
                     add8(fib_profile(k), 3, 1, &mut out);
                 }
-                for k in [18, 24] {
+                for k in [18, 24, 28] {
                     add8(fib_profile(k), 2, 1, &mut out);
                 }
                 add8(empty.clone(), 3, 2, &mut out);
@@ -343,6 +343,7 @@ pub fn jobs(prop: &str, tier: &str) -> Vec<Job> {
                 add8(fib_profile(6), 2, 1, &mut out);
                 add8(fib_profile(10), 2, 1, &mut out);
                 add8(fib_profile(18), 1, 0, &mut out);
+                add8(fib_profile(28), 1, 0, &mut out);
                 add8(empty.clone(), 2, 1, &mut out);
                 add16(uniform_profile(257, 1), 1, 0, &mut out);
                 add16(uniform_profile(300, 1), 2, 1, &mut out);
@@ -364,7 +365,7 @@ pub fn jobs(prop: &str, tier: &str) -> Vec<Job> {
                 for seed in 0..3 {
                     add(seed, Alphabet::AllBytes, 2, 0);
                 }
-                for seed in 3..6 {
+                for seed in 3..8 {
                     add(seed, Alphabet::Relative, 3, 1);
                 }
             } else {
@@ -374,7 +375,7 @@ pub fn jobs(prop: &str, tier: &str) -> Vec<Job> {
                 for seed in 0..3 {
                     add(seed, Alphabet::AllBytes, 1, 0);
                 }
-                for seed in 3..6 {
+                for seed in 3..8 {
                     add(seed, Alphabet::Relative, 1, 1);
                 }
             }
@@ -439,7 +440,8 @@ pub fn jobs(prop: &str, tier: &str) -> Vec<Job> {
             c.o_model = true;
             c.n_values = 4;
             c.n_forms = 2;
-            let devs: &[(usize, usize, u8)] = if thorough { &[(48, 2, 0)] } else { &[(24, 1, 0)] };
+            // the long runs cross the heavy-hitter summary's compaction in dictionary-coded regions (> 1024 pushes)
+            let devs: &[(usize, usize, u8)] = if thorough { &[(48, 2, 0), (2200, 0, 0)] } else { &[(24, 1, 0), (1100, 0, 0)] };
             life(&mut out, c, if thorough { 5 } else { 4 }, devs, &|i| i.has_heap, &|_, _| {});
             stacks(&mut out, StackOracle::Sequence, if thorough { 5 } else { 3 }, &[], 3);
         }
